@@ -5,14 +5,17 @@ Require Import Result F32 Codec C08_Body C08_Read C08_Spec C08_Lemmas C08_Ctor.
 Import ListNotations.
 Local Open Scope nat_scope.
 
+Section Cfg.
+Variables (mm : mmkind) (eo : bool).
+
 Lemma Masked_eq {V M} s1 s2 (v v' : V) (m m' : M) : v = v' -> m = m' -> Masked s1 v s2 m = Masked s1 v' s2 m'.
 Proof. now intros -> ->. Qed.
 (* ---------------- frames (axis 0) ---------------- *)
 Lemma gat_map3 {X Y} (f : X -> Y) ix (l : t3 X) : gat ix (map3 f l) = map3 f (gat ix l).
 Proof. unfold map3. apply gat_map. Qed.
 Lemma take_rep b fps ix k : kD k <> 0 ->
-  take_frames cfg_repaired b fps ix (rep b k) = Ok (rep b (ref_frames fps ix k)).
-Proof. intros HD. etransitivity; [|apply (masked_rep b (ref_frames fps ix k)); exact HD].
+  take_frames (cfg_repaired mm eo) b fps ix (rep b k) = Ok (rep b (ref_frames fps ix k)).
+Proof. intros HD. etransitivity; [|apply (masked_rep mm eo b (ref_frames fps ix k)); exact HD].
   unfold take_frames, rep, rows, kshape, kcshape. cbn [g_data g_cs g_conf dmapx set0 ref_frames k_fps kF kP kT kD k_pts].
   f_equal; [apply Masked_eq|]; apply gat_map3. Qed.
 Lemma tf_safe_gat ix (pts : t3 point) : tf_safe_pts pts -> tf_safe_pts (gat ix pts).
@@ -21,15 +24,15 @@ Lemma ok_for_gat b ix pts : ok_for b pts -> ok_for b (gat ix pts).
 Proof. destruct b; cbn [ok_for]; trivial. apply tf_safe_gat. Qed.
 
 Lemma select_frames_rep b idx k : kD k <> 0 -> idx <> [] -> in_range (kF k) idx ->
-  select_frames cfg_repaired b idx (rep b k) = Ok (rep b (ref_frames (k_fps k) (map Z.to_nat idx) k)).
+  select_frames (cfg_repaired mm eo) b idx (rep b k) = Ok (rep b (ref_frames (k_fps k) (map Z.to_nat idx) k)).
 Proof. intros HD Hne Hin. unfold select_frames, extent. cbn [rep g_data dshape kshape nth].
   rewrite ix_list_in by assumption. cbn [rbind]. now apply take_rep. Qed.
 Lemma getitem_slice_gen b s k : kD k <> 0 ->
-  getitem_slice cfg_repaired b s (rep b k) = rmap (fun ix => rep b (ref_frames (k_fps k) ix k)) (ix_slice b (kF k) s).
+  getitem_slice (cfg_repaired mm eo) b s (rep b k) = rmap (fun ix => rep b (ref_frames (k_fps k) ix k)) (ix_slice b (kF k) s).
 Proof. intros HD. unfold getitem_slice, extent. cbn [rep g_data dshape kshape nth g_fps].
-  destruct (ix_slice b (kF k) s) as [ix|e]; cbn [rbind rmap]; [|reflexivity]. now apply (take_rep b (k_fps k) ix k). Qed.
+  destruct (ix_slice b (kF k) s) as [ix|e]; cbn [rbind rmap]; [|reflexivity]. now apply take_rep. Qed.
 Lemma slice_step_gen b by_ k : kD k <> 0 ->
-  slice_step cfg_repaired b by_ (rep b k) =
+  slice_step (cfg_repaired mm eo) b by_ (rep b k) =
   rmap (fun ix => rep b (ref_frames (fps_div (k_fps k) by_) ix k)) (ix_slice b (kF k) (every by_)).
 Proof. intros HD. unfold slice_step, extent, every. cbn [rep g_data dshape kshape nth g_fps].
   destruct (ix_slice b (kF k) _) as [ix|e]; cbn [rbind rmap]; [|reflexivity]. now apply take_rep. Qed.
@@ -46,10 +49,10 @@ Proof. intros H. unfold ix_slice, slice_idx. rewrite H. destruct b; reflexivity.
 
 (* ---------------- one frame ---------------- *)
 Lemma getitem_int_rep b i k : kD k <> 0 ->
-  getitem_int cfg_repaired b i (rep b k) = rmap (fun j => frep b (ref_frame j k)) (norm_wrap (kF k) i).
+  getitem_int (cfg_repaired mm eo) b i (rep b k) = rmap (fun j => frep b (ref_frame j k)) (norm_wrap (kF k) i).
 Proof. intros HD. unfold getitem_int, extent. cbn [rep g_data dshape kshape nth g_fps g_cs g_conf kcshape].
   destruct (norm_wrap (kF k) i) as [j|e]; cbn [rbind rmap]; [|reflexivity].
-  etransitivity; [|apply (masked_frep b (ref_frame j k)); exact HD].
+  etransitivity; [|apply (masked_frep mm eo b (ref_frame j k)); exact HD].
   unfold frep, rows. cbn [dmapx tl g_data ref_frame q_fps qP qT qD q_pts].
   f_equal; [apply Masked_eq|]; apply nth_map_nil. Qed.
 Lemma norm_wrap_out n i : (i < - Z.of_nat n \/ Z.of_nat n <= i)%Z -> norm_wrap n i = Err Index.
@@ -64,10 +67,10 @@ Proof. unfold tf_safe_pts, tf_safe_pts2, map3, map2n. intros H.
 Lemma gat2_map3 {X Y} (f : X -> Y) ix (l : t3 X) : map (map (gat ix)) (map3 f l) = map3 f (map (map (gat ix)) l).
 Proof. unfold map3. rewrite !map_map. apply map_ext; intros l2. rewrite !map_map. apply map_ext; intros l1. apply gat_map. Qed.
 Lemma get_points_rep b idx k : kD k <> 0 -> idx <> [] -> in_range (kT k) idx ->
-  get_points cfg_repaired b idx (rep b k) = Ok (rep b (ref_points (map Z.to_nat idx) k)).
+  get_points (cfg_repaired mm eo) b idx (rep b k) = Ok (rep b (ref_points (map Z.to_nat idx) k)).
 Proof. intros HD Hne Hin. unfold get_points, extent. cbn [rep g_data dshape kshape nth g_fps g_cs g_conf kcshape].
   rewrite ix_list_in by assumption. cbn [rbind].
-  etransitivity; [|apply (masked_rep b (ref_points (map Z.to_nat idx) k)); exact HD].
+  etransitivity; [|apply (masked_rep mm eo b (ref_points (map Z.to_nat idx) k)); exact HD].
   unfold rep, rows, kshape, kcshape. cbn [g_data dmapx set2 ref_points k_fps kF kP kT kD k_pts].
   f_equal; [apply Masked_eq|]; apply gat2_map3. Qed.
 Lemma tf_safe_gat2 ix (pts : t3 point) : tf_safe_pts pts -> tf_safe_pts (map (map (gat ix)) pts).
@@ -76,8 +79,8 @@ Lemma ok_for_gat2 b ix pts : ok_for b pts -> ok_for b (map (map (gat ix)) pts).
 Proof. destruct b; cbn [ok_for]; trivial. apply tf_safe_gat2. Qed.
 
 (* ---------------- copy ---------------- *)
-Lemma copy_rep b k : kD k <> 0 -> copy cfg_repaired b (rep b k) = Ok (rep b k).
-Proof. intros HD. pose proof (masked_rep b k HD) as H. destruct b; exact H. Qed.
+Lemma copy_rep b k : kD k <> 0 -> copy (cfg_repaired mm eo) b (rep b k) = Ok (rep b k).
+Proof. intros HD. pose proof (masked_rep mm eo b k HD) as H. destruct b; exact H. Qed.
 
 (* ---------------- zero_filled ---------------- *)
 Lemma zipw_repeat_map {A B B' C} (f : A -> B -> C) (h : B' -> B) (l : list A) (y : B') n :
@@ -86,7 +89,7 @@ Proof. revert n; induction l as [|x l IH]; intros [|n]; cbn [zipw repeat]; try r
 Lemma rows_same_fst {X} (g : N -> X) d (h : point -> point) (pts : t3 point) :
   (forall x, fst (h x) = fst x) -> rows g d (map3 h pts) = rows g d pts.
 Proof. intros H. unfold rows. rewrite map3_map3. apply map3_ext. intros x. now rewrite H. Qed.
-Lemma zero_filled_np k : kD k <> 0 -> zero_filled cfg_repaired Np (rep Np k) = Ok (rep Np (ref_zero k)).
+Lemma zero_filled_np k : kD k <> 0 -> zero_filled (cfg_repaired mm eo) Np (rep Np k) = Ok (rep Np (ref_zero k)).
 Proof. intros HD. unfold zero_filled. rewrite copy_rep by exact HD. cbn [rbind rep g_data g_fps g_cs g_conf]. f_equal.
   unfold rep, kshape, kcshape, ref_zero. cbn [k_fps kF kP kT kD k_pts]. f_equal.
   - f_equal.
@@ -94,7 +97,7 @@ Proof. intros HD. unfold zero_filled. rewrite copy_rep by exact HD. cbn [rbind r
     + symmetry. apply rows_same_fst. reflexivity.
   - rewrite map3_map3. reflexivity. Qed.
 Lemma zero_filled_mt b k : b <> Np -> kD k <> 0 -> ok_for b (k_pts k) ->
-  zero_filled cfg_repaired b (rep b k) =
+  zero_filled (cfg_repaired mm eo) b (rep b k) =
   Ok {| g_fps := k_fps k; g_data := Plain (kshape k) (map3 snd (k_pts (ref_zero k))); g_cs := kcshape k; g_conf := map3 fst (k_pts k) |}.
 Proof. intros Hb HD Hok. unfold zero_filled. rewrite copy_rep by exact HD. cbn [rbind].
   assert (E : zip4 (zf_cell ZfWhere) (map3 snd (k_pts k)) (rows (fun w => negb (is_zero32 w)) (kD k) (k_pts k))
@@ -106,9 +109,12 @@ Proof. intros Hb HD Hok. unfold zero_filled. rewrite copy_rep by exact HD. cbn [
   - now rewrite E.
   - cbn [ok_for] in Hok. rewrite tf_rows by exact Hok. now rewrite E. Qed.
 
+End Cfg.
+
 (* ---------------- matmul ---------------- *)
 Section Kernel.
 Variable dot : list N -> list N -> N.
+Variable eo : bool.
 Lemma vecmat_length m v : length (vecmat dot m v) = m_cols m.
 Proof. unfold vecmat, mcols. now rewrite !map_length, seq_length. Qed.
 Lemma map3_ext_in {X Y} (P : X -> Prop) (f g : X -> Y) (l : t3 X) :
@@ -139,19 +145,19 @@ Definition np_matmul_core (m : matrix) (k : core) : core :=
                                                               (snd x) (repeat (is_zero32 (fst x)) (kD k))))) (k_pts k) |}.
 Lemma set_last4 e a b c d : set_last e [a; b; c; d] = [a; b; c; e].
 Proof. reflexivity. Qed.
-Lemma matmul_np m k : kD k <> 0 -> m_rows m = kD k -> m_cols m <> 0 ->
-  matmul dot cfg_repaired Np m (rep Np k) = Ok (rep Np (np_matmul_core m k)).
+Lemma matmul_np mm m k : kD k <> 0 -> m_rows m = kD k -> m_cols m <> 0 ->
+  matmul dot (cfg_repaired mm eo) Np m (rep Np k) = Ok (rep Np (np_matmul_core m k)).
 Proof. intros HD Hr Hc. unfold matmul. cbn [rep g_data dshape kshape last_dim last g_fps g_cs g_conf].
   rewrite Hr, Nat.eqb_refl. cbn [negb].
-  etransitivity; [|apply (masked_rep Np (np_matmul_core m k)); exact Hc].
+  etransitivity; [|apply (masked_rep mm eo Np (np_matmul_core m k)); exact Hc].
   cbn [ctor]. unfold rep, kshape, kcshape, np_matmul_core. cbn [g_data k_fps kF kP kT kD k_pts stored]. rewrite !set_last4.
   f_equal.
   - f_equal.
     + unfold rows. rewrite zip4_map3, !map3_map3. reflexivity.
     + unfold rows. rewrite !map3_map3. apply map3_ext. intros x. cbn [fst]. now rewrite forallb_repeat.
   - rewrite map3_map3. reflexivity. Qed.
-Lemma matmul_np_visible m k : kD k <> 0 -> m_rows m = kD k -> m_cols m <> 0 -> rows_ok k ->
-  rmap (fun y => visible (observe Np y)) (matmul dot cfg_repaired Np m (rep Np k)) = Ok (visible (obs_core (ref_matmul dot m k))).
+Lemma matmul_np_visible mm m k : kD k <> 0 -> m_rows m = kD k -> m_cols m <> 0 -> rows_ok k ->
+  rmap (fun y => visible (observe Np y)) (matmul dot (cfg_repaired mm eo) Np m (rep Np k)) = Ok (visible (obs_core (ref_matmul dot m k))).
 Proof. intros HD Hr Hc Hok. rewrite matmul_np by assumption. cbn [rmap]. f_equal. rewrite obs_rep by exact I.
   apply visible_eq; try reflexivity.
   - unfold obs_core, rows, np_matmul_core, ref_matmul. cbn [o_valid k_pts kD kshape kF kP kT]. now rewrite !map3_map3.
@@ -167,18 +173,29 @@ Proof. intros HD Hr Hc Hok. rewrite matmul_np by assumption. cbn [rmap]. f_equal
 Definition mt_matmul_core (m : matrix) (k : core) : core :=
   {| k_fps := k_fps k; kF := kF k; kP := kP k; kT := kT k; kD := m_cols m;
      k_pts := map3 (fun x : point => (fst x, vecmat dot m (snd x))) (k_pts k) |}.
-Lemma matmul_mt b m k : b <> Np -> kD k <> 0 -> m_rows m = kD k -> m_cols m = kD k ->
-  matmul dot cfg_repaired b m (rep b k) = Ok (rep b (mt_matmul_core m k)).
+Lemma matmul_mt_keep b m k : b <> Np -> kD k <> 0 -> m_rows m = kD k -> m_cols m = kD k ->
+  matmul dot (cfg_repaired MmKeep eo) b m (rep b k) = Ok (rep b (mt_matmul_core m k)).
 Proof. intros Hb HD Hr Hc. unfold matmul. cbn [rep g_data dshape kshape last_dim last g_fps g_cs g_conf].
   rewrite Hr, Nat.eqb_refl. cbn [negb].
   assert (HD' : kD (mt_matmul_core m k) <> 0) by (cbn [mt_matmul_core kD]; lia).
-  destruct b; [contradiction| |]; (etransitivity; [|apply (masked_rep _ (mt_matmul_core m k)); exact HD']);
+  destruct b; [contradiction| |]; cbn [cfg_repaired torch_mm tf_mm];
+    (etransitivity; [|apply (masked_rep MmKeep eo _ (mt_matmul_core m k)); exact HD']);
     unfold rep, kshape, kcshape, mt_matmul_core; cbn [g_data k_fps kF kP kT kD k_pts]; rewrite !set_last4, Hc;
     (f_equal; [apply Masked_eq|]); try (rewrite !map3_map3; reflexivity); try (unfold rows; rewrite !map3_map3; reflexivity). Qed.
-Lemma matmul_mt_visible b m k : b <> Np -> kD k <> 0 -> m_rows m = kD k -> m_cols m = kD k -> ok_for b (k_pts k) ->
-  rmap (fun y => visible (observe b y)) (matmul dot cfg_repaired b m (rep b k)) = Ok (visible (obs_core (ref_matmul dot m k))).
-Proof. intros Hb HD Hr Hc Hok. rewrite matmul_mt by assumption. cbn [rmap]. f_equal.
-  rewrite obs_rep.
+(* with the mask rebuilt from the rows (proposed fix F16a) any width is fine *)
+Lemma matmul_mt_expand b m k : b <> Np -> kD k <> 0 -> m_rows m = kD k -> m_cols m <> 0 ->
+  matmul dot (cfg_repaired MmAllExpand eo) b m (rep b k) = Ok (rep b (mt_matmul_core m k)).
+Proof. intros Hb HD Hr Hc. unfold matmul. cbn [rep g_data dshape kshape last_dim last g_fps g_cs g_conf].
+  rewrite Hr, Nat.eqb_refl. cbn [negb].
+  assert (HD' : kD (mt_matmul_core m k) <> 0) by (cbn [mt_matmul_core kD]; exact Hc).
+  destruct b; [contradiction| |]; cbn [cfg_repaired torch_mm tf_mm];
+    (etransitivity; [|apply (masked_rep MmAllExpand eo _ (mt_matmul_core m k)); exact HD']);
+    unfold rep, kshape, kcshape, mt_matmul_core; cbn [g_data k_fps kF kP kT kD k_pts]; rewrite !set_last4;
+    (f_equal; [apply Masked_eq|]); try (rewrite !map3_map3; reflexivity);
+    unfold rows; rewrite !map3_map3; apply map3_ext; intros x; cbn [fst]; now rewrite forallb_repeat. Qed.
+Lemma mt_visible b m k : ok_for b (k_pts k) ->
+  visible (observe b (rep b (mt_matmul_core m k))) = visible (obs_core (ref_matmul dot m k)).
+Proof. intros Hok. rewrite obs_rep.
   2:{ destruct b; cbn [ok_for] in *; trivial. unfold tf_safe_pts, mt_matmul_core in *. cbn [k_pts]. now rewrite !map3_map3. }
   apply visible_eq; try reflexivity.
   - unfold obs_core, rows, mt_matmul_core, ref_matmul. cbn [o_valid k_pts kD kshape kF kP kT]. now rewrite !map3_map3.
@@ -188,6 +205,14 @@ Proof. intros Hb HD Hr Hc Hok. rewrite matmul_mt by assumption. cbn [rmap]. f_eq
     rewrite (visible_core m k (fun x : point => if is_zero32 (fst x) then repeat zero32 (m_cols m) else vecmat dot m (snd x)))
       by (intros x; destruct (is_zero32 (fst x)); [apply repeat_length|apply vecmat_length]).
     apply map3_ext. intros x. now destruct (is_zero32 (fst x)). Qed.
+Lemma matmul_mt_visible mm b m k : b <> Np -> kD k <> 0 -> m_rows m = kD k -> m_cols m = kD k -> ok_for b (k_pts k) ->
+  rmap (fun y => visible (observe b y)) (matmul dot (cfg_repaired mm eo) b m (rep b k)) = Ok (visible (obs_core (ref_matmul dot m k))).
+Proof. intros Hb HD Hr Hc Hok. destruct mm.
+  - rewrite matmul_mt_keep by assumption. cbn [rmap]. f_equal. now apply mt_visible.
+  - rewrite matmul_mt_expand by (try assumption; lia). cbn [rmap]. f_equal. now apply mt_visible. Qed.
+Lemma matmul_mt_expand_visible b m k : b <> Np -> kD k <> 0 -> m_rows m = kD k -> m_cols m <> 0 -> ok_for b (k_pts k) ->
+  rmap (fun y => visible (observe b y)) (matmul dot (cfg_repaired MmAllExpand eo) b m (rep b k)) = Ok (visible (obs_core (ref_matmul dot m k))).
+Proof. intros Hb HD Hr Hc Hok. rewrite matmul_mt_expand by assumption. cbn [rmap]. f_equal. now apply mt_visible. Qed.
 Lemma visible_ref_matmul m k :
   o_val (visible (obs_core (ref_matmul dot m k))) = map3 (vis_row m) (k_pts k).
 Proof. unfold ref_matmul, vis_row.
